@@ -189,3 +189,12 @@ def run(ck):
             wit = None
         ck.ob('C05.dht', 'C05.dht/holders-pruned-every-pass', bool(prunes) and wit is None, se.loc(lp),
               'each iteration of the locator loop removes the expired holders before it decides about the locator', wit)
+
+    # ---- both sweeps look at every entry on every call: no cached horizon returns before the scan -----------------------------------
+    from props.common import always_scans
+    for q_, member_, what_ in ((CS + 'sweep_expired', CS + 'chunks_', 'chunks_'), (KT + 'sweep_expired', KT + 'table_', 'table_')):
+        f_ = P.fn(q_)
+        ck.touch(f_)
+        lps_, wit_ = always_scans(f_, member_)
+        ck.ob('C05.sweep', 'C05.sweep/%s/always-scans' % q_.split('::')[-2], bool(lps_) and wit_ is None, f_.loc(),
+              'every call of %s walks %s: a cleanup tick cannot skip expired state because a remembered "next expiry" is stale' % (q_.replace('ephemeralnet::', ''), what_), wit_)
